@@ -356,7 +356,7 @@ def shards(tier, seed):
 def requirements(tier):
     return {"constructibility_checked": 10000, "ill_formed_rejected": 3000, "declared_keys_checked": 2000, "wrong_key_set_rejected": 10000,
             "application_checked": 1000, "algebra_checked": 1000, "algebra_checked_constructible": 50, "dict_mutator_rejected": 35,
-            "dict_shape_contradiction_rejected": 100, "dict_valid_shape_accepted": 20, "type_seen:G": 50, "type_seen:J": 50, "type_seen:E": 50,
+            "dict_shape_contradiction_rejected": 100, "dict_valid_shape_accepted": 20, "dict_rewrap_checked": 40, "type_seen:G": 50, "type_seen:J": 50, "type_seen:E": 50,
             "type_seen:T": 20, "atoms_enumerated": 88, "depth1_enumerated": 7803, **({"repo_tests_contract_evaluations": 1000} if tier == "thorough" else {})}
 
 
@@ -509,6 +509,28 @@ def judge_dicts(w, ctx):
                 ctx.violation("dictionary_shape_check", ["dict", name], {"type": name, "issue": "different first dimensions accepted"})
             except Exception:
                 ctx.count("dict_shape_contradiction_rejected")
+    # the same shape contradictions when the SOURCE mapping is itself a TensorDict of another (or the unconstrained base) type
+    k2 = torch.zeros(2)
+    sources = {"TensorDict": lambda v: tr.TensorDict({k2: v}), "Jacobians": lambda v: tr.Jacobians({k2: v}), "Gradients": lambda v: tr.Gradients({k2: v}),
+               "GradientVectors": lambda v: tr.GradientVectors({k2: v}), "JacobianMatrices": lambda v: tr.JacobianMatrices({k2: v})}
+    for name, cls in classes.items():
+        for sname, mk in sources.items():
+            for vs in [(2,), (3, 2), (1, 2), (2, 2), (5,), (4, 3)]:
+                try:
+                    src = mk(torch.ones(vs))
+                except Exception:
+                    continue  # the source itself is ill-typed
+                ok = preds[name]((2,), vs)
+                try:
+                    cls(src)
+                    built = True
+                except Exception:
+                    built = False
+                ctx.evaluated(fingerprint(["rewrap", name, sname, vs]), nontrivial=True)
+                if built != ok:
+                    ctx.violation("dictionary_shape_check", ["dict", name], {"type": name, "built_from": sname, "value_shape": list(vs), "built": built, "model_allows": ok})
+                else:
+                    ctx.count("dict_rewrap_checked")
     try:
         tr.EmptyTensorDict({torch.zeros(2): torch.zeros(2)})
         ctx.violation("dictionary_shape_check", ["dict", "EmptyTensorDict"], {"issue": "non-empty EmptyTensorDict accepted"})
